@@ -28,6 +28,17 @@ func init() {
 		c := &c05{x: x, dir: dir}
 		c.scanPackage()
 
+		// Extraction problems inside a soft section concern change detectors only (Props/C05Pins.lean): they are
+		// reported as `pinNotes`, not as a failure of the extractor. Hard (obligations, Props/C05Facts.lean): the
+		// regular expressions Parse consults and the statelessness of its loop.
+		var pinNotes []string
+		soft := func(f func()) {
+			n := len(x.errs)
+			f()
+			pinNotes = append(pinNotes, x.errs[n:]...)
+			x.errs = x.errs[:n]
+		}
+
 		// --- Parse: the regexes consulted, in order, through the three command parsers -----------------
 		parse := x.funcDecl(dir, "", "Parse")
 		if parse != nil {
@@ -66,6 +77,7 @@ func init() {
 				return true
 			})
 			x.defStrList("regexEvents", regexEvents)
+			x.defSortedStrList("regexSources", c05Uniq(regexEvents))
 			x.defSortedStrList("parseLibCalls", c05Keys(libs))
 			x.defNat("parseContinues", uint64(continues))
 			x.defStrList("parseContinueGuards", continueGuards)
@@ -111,207 +123,283 @@ func init() {
 		}
 		x.defNat("maxScanTokenSize", uint64(bufio.MaxScanTokenSize)) // the Go standard library factgen is built with
 
-		// --- the three command handlers, found from NewTable by the command they are called for ----------
-		newTable := x.funcDecl(dir, "", "NewTable")
-		handlers := map[string]*ast.FuncDecl{}
-		if newTable != nil {
-			c.walk(newTable, func(n ast.Node) bool {
-				is, ok := n.(*ast.IfStmt)
-				if !ok {
-					return true
-				}
-				cond := c.shape(is.Cond)
-				for _, cmd := range []string{"route add", "route del", "route weight"} {
-					if cond == `_.Cmd == "`+cmd+`"` && handlers[cmd] == nil {
-						ast.Inspect(is.Body, func(m ast.Node) bool {
-							if call, ok := m.(*ast.CallExpr); ok && handlers[cmd] == nil {
-								if fd := c.callee(call); fd != nil {
-									handlers[cmd] = fd
+		soft(func() {
+			// --- the three command handlers, found from NewTable by the command they are called for ----------
+			newTable := x.funcDecl(dir, "", "NewTable")
+			handlers := map[string]*ast.FuncDecl{}
+			if newTable != nil {
+				c.walk(newTable, func(n ast.Node) bool {
+					is, ok := n.(*ast.IfStmt)
+					if !ok {
+						return true
+					}
+					cond := c.shape(is.Cond)
+					for _, cmd := range []string{"route add", "route del", "route weight"} {
+						if cond == `_.Cmd == "`+cmd+`"` && handlers[cmd] == nil {
+							ast.Inspect(is.Body, func(m ast.Node) bool {
+								if call, ok := m.(*ast.CallExpr); ok && handlers[cmd] == nil {
+									if fd := c.callee(call); fd != nil {
+										handlers[cmd] = fd
+									}
 								}
+								return true
+							})
+						}
+					}
+					return true
+				})
+				for _, cmd := range []string{"route add", "route del", "route weight"} {
+					if handlers[cmd] == nil {
+						x.fail("NewTable: no handler found for command %q", cmd)
+					}
+				}
+				// the final sort
+				sorts := 0
+				c.walk(newTable, func(n ast.Node) bool {
+					if call, ok := n.(*ast.CallExpr); ok && x.src(call.Fun) == "sort.Sort" {
+						sorts++
+					}
+					return true
+				})
+				x.defBool("newTableSorts", sorts > 0)
+			}
+			usesLower := func(fd *ast.FuncDecl) bool {
+				found := false
+				if fd != nil {
+					c.walk(fd, func(n ast.Node) bool {
+						if call, ok := n.(*ast.CallExpr); ok && x.src(call.Fun) == "strings.ToLower" {
+							found = true
+						}
+						return true
+					})
+				}
+				return found
+			}
+			x.defBool("addLowersHost", usesLower(handlers["route add"]))
+			x.defBool("delLowersHost", usesLower(handlers["route del"]))
+			x.defBool("weightLowersHost", usesLower(handlers["route weight"]))
+
+			// guard conditions (shapes) met on the way through a handler, in order
+			ifConds := func(fd *ast.FuncDecl, keep func(s string) bool) []string {
+				var out []string
+				if fd != nil {
+					c.walk(fd, func(n ast.Node) bool {
+						if is, ok := n.(*ast.IfStmt); ok {
+							if s := c.shape(is.Cond); keep(s) {
+								out = append(out, s)
 							}
-							return true
-						})
-					}
+						}
+						return true
+					})
 				}
-				return true
-			})
-			for _, cmd := range []string{"route add", "route del", "route weight"} {
-				if handlers[cmd] == nil {
-					x.fail("NewTable: no handler found for command %q", cmd)
-				}
+				return out
 			}
-			// the final sort
-			sorts := 0
-			c.walk(newTable, func(n ast.Node) bool {
-				if call, ok := n.(*ast.CallExpr); ok && x.src(call.Fun) == "sort.Sort" {
-					sorts++
-				}
-				return true
-			})
-			x.defBool("newTableSorts", sorts > 0)
-		}
-		usesLower := func(fd *ast.FuncDecl) bool {
-			found := false
-			if fd != nil {
-				c.walk(fd, func(n ast.Node) bool {
-					if call, ok := n.(*ast.CallExpr); ok && x.src(call.Fun) == "strings.ToLower" {
-						found = true
-					}
-					return true
-				})
-			}
-			return found
-		}
-		x.defBool("addLowersHost", usesLower(handlers["route add"]))
-		x.defBool("delLowersHost", usesLower(handlers["route del"]))
-		x.defBool("weightLowersHost", usesLower(handlers["route weight"]))
+			all := func(string) bool { return true }
 
-		// guard conditions (shapes) met on the way through a handler, in order
-		ifConds := func(fd *ast.FuncDecl, keep func(s string) bool) []string {
-			var out []string
-			if fd != nil {
+			// del: the four forms (conditions on the command's fields) and the predicates handed to filter
+			if fd := handlers["route del"]; fd != nil {
+				x.defStrList("delCases", ifConds(fd, func(s string) bool {
+					return strings.Contains(s, ".Tags") || strings.Contains(s, ".Src") || strings.Contains(s, ".Dst")
+				}))
+				var preds []string
 				c.walk(fd, func(n ast.Node) bool {
-					if is, ok := n.(*ast.IfStmt); ok {
-						if s := c.shape(is.Cond); keep(s) {
-							out = append(out, s)
+					if fl, ok := n.(*ast.FuncLit); ok {
+						for _, st := range fl.Body.List {
+							if rs, ok := st.(*ast.ReturnStmt); ok && len(rs.Results) == 1 {
+								preds = append(preds, c.shape(rs.Results[0]))
+							}
 						}
 					}
 					return true
 				})
+				x.defStrList("delPredicates", preds)
+				deletes := 0
+				c.walk(fd, func(n ast.Node) bool {
+					if call, ok := n.(*ast.CallExpr); ok && x.src(call.Fun) == "delete" {
+						deletes++
+					}
+					return true
+				})
+				x.defBool("delDeletesHosts", deletes > 0)
 			}
-			return out
-		}
-		all := func(string) bool { return true }
-
-		// del: the four forms (conditions on the command's fields) and the predicates handed to filter
-		if fd := handlers["route del"]; fd != nil {
-			x.defStrList("delCases", ifConds(fd, func(s string) bool {
-				return strings.Contains(s, ".Tags") || strings.Contains(s, ".Src") || strings.Contains(s, ".Dst")
-			}))
-			var preds []string
-			c.walk(fd, func(n ast.Node) bool {
-				if fl, ok := n.(*ast.FuncLit); ok {
-					for _, st := range fl.Body.List {
-						if rs, ok := st.(*ast.ReturnStmt); ok && len(rs.Results) == 1 {
-							preds = append(preds, c.shape(rs.Results[0]))
+			// add: the clamp of negative weights and the de-duplication test that follows it
+			if fd := handlers["route add"]; fd != nil {
+				conds := ifConds(fd, all)
+				var pre []string
+				for i, s := range conds {
+					if strings.Contains(s, "reflect.DeepEqual") || strings.Contains(s, ".Service == _") {
+						if i > 0 {
+							pre = append(pre, conds[i-1])
 						}
+						pre = append(pre, s)
+						break
 					}
 				}
-				return true
-			})
-			x.defStrList("delPredicates", preds)
-			deletes := 0
-			c.walk(fd, func(n ast.Node) bool {
-				if call, ok := n.(*ast.CallExpr); ok && x.src(call.Fun) == "delete" {
-					deletes++
-				}
-				return true
-			})
-			x.defBool("delDeletesHosts", deletes > 0)
-		}
-		// add: the clamp of negative weights and the de-duplication test that follows it
-		if fd := handlers["route add"]; fd != nil {
-			conds := ifConds(fd, all)
-			var pre []string
-			for i, s := range conds {
-				if strings.Contains(s, "reflect.DeepEqual") || strings.Contains(s, ".Service == _") {
-					if i > 0 {
-						pre = append(pre, conds[i-1])
-					}
-					pre = append(pre, s)
-					break
-				}
+				x.defStrList("addClampAndDedup", pre)
 			}
-			x.defStrList("addClampAndDedup", pre)
-		}
-		// weight: which targets match, and the share is divided by their number
-		if fd := handlers["route weight"]; fd != nil {
-			x.defStrList("weightMatchConds", ifConds(fd, func(s string) bool {
-				return strings.Contains(s, ".Service") || strings.Contains(s, ".Tags")
-			}))
-			divides := false
-			c.walk(fd, func(n ast.Node) bool {
-				if be, ok := n.(*ast.BinaryExpr); ok && be.Op == token.QUO && c.shape(be) == "_ / float64(_)" {
-					divides = true
-				}
-				return true
-			})
-			x.defBool("weightDividesByMatches", divides)
-		}
+			// weight: which targets match, and the share is divided by their number
+			if fd := handlers["route weight"]; fd != nil {
+				x.defStrList("weightMatchConds", ifConds(fd, func(s string) bool {
+					return strings.Contains(s, ".Service") || strings.Contains(s, ".Tags")
+				}))
+				divides := false
+				c.walk(fd, func(n ast.Node) bool {
+					if be, ok := n.(*ast.BinaryExpr); ok && be.Op == token.QUO && c.shape(be) == "_ / float64(_)" {
+						divides = true
+					}
+					return true
+				})
+				x.defBool("weightDividesByMatches", divides)
+			}
 
-		// Routes.Less: variables named by role (receiver, parameters, locals in declaration order)
-		if fd := x.funcDecl(dir, "Routes", "Less"); fd != nil {
-			ren := c.roleNames(fd)
-			var evs []string
-			ast.Inspect(fd.Body, func(n ast.Node) bool {
-				switch v := n.(type) {
-				case *ast.AssignStmt:
-					evs = append(evs, x.RenameLocals(v, ren))
-				case *ast.IfStmt:
-					evs = append(evs, "if "+x.RenameLocals(v.Cond, ren))
-				case *ast.ReturnStmt:
-					evs = append(evs, x.RenameLocals(v, ren))
-				}
-				return true
-			})
-			x.defStrList("lessEvents", evs)
-		}
-		// hostpath (named by the harness hook)
-		if fd := x.funcDecl(dir, "", "hostpath"); fd != nil {
-			libs := map[string]bool{}
-			c.walk(fd, func(n ast.Node) bool {
-				if call, ok := n.(*ast.CallExpr); ok {
-					if sel, ok := call.Fun.(*ast.SelectorExpr); ok {
-						if id, ok := sel.X.(*ast.Ident); ok && id.Name == "strings" && sel.Sel.Name != "ToLower" {
-							libs[c.libShape(call)] = true
+			// Routes.Less: variables named by role (receiver, parameters, locals in declaration order)
+			if fd := x.funcDecl(dir, "Routes", "Less"); fd != nil {
+				ren := c.roleNames(fd)
+				var evs []string
+				ast.Inspect(fd.Body, func(n ast.Node) bool {
+					switch v := n.(type) {
+					case *ast.AssignStmt:
+						evs = append(evs, x.RenameLocals(v, ren))
+					case *ast.IfStmt:
+						evs = append(evs, "if "+x.RenameLocals(v.Cond, ren))
+					case *ast.ReturnStmt:
+						evs = append(evs, x.RenameLocals(v, ren))
+					}
+					return true
+				})
+				x.defStrList("lessEvents", evs)
+			}
+			// hostpath (named by the harness hook)
+			if fd := x.funcDecl(dir, "", "hostpath"); fd != nil {
+				libs := map[string]bool{}
+				c.walk(fd, func(n ast.Node) bool {
+					if call, ok := n.(*ast.CallExpr); ok {
+						if sel, ok := call.Fun.(*ast.SelectorExpr); ok {
+							if id, ok := sel.X.(*ast.Ident); ok && id.Name == "strings" && sel.Sel.Name != "ToLower" {
+								libs[c.libShape(call)] = true
+							}
 						}
 					}
-				}
-				return true
-			})
-			x.defSortedStrList("hostpathCalls", c05Keys(libs))
-		}
+					return true
+				})
+				x.defSortedStrList("hostpathCalls", c05Keys(libs))
+			}
 
-		// --- rendering -------------------------------------------------------------------------------------
-		if fd := x.funcDecl(dir, "Route", "TargetConfig"); fd != nil {
-			var fmts []string
-			sortsKeys := false
-			c.walk(fd, func(n ast.Node) bool {
-				if call, ok := n.(*ast.CallExpr); ok {
-					switch x.src(call.Fun) {
-					case "fmt.Sprintf":
-						if s, ok := x.strLit(call.Args[0]); ok {
-							fmts = append(fmts, s)
-						} else {
-							x.fail("TargetConfig: Sprintf format is not a literal: %s", x.src(call))
+			// --- rendering -------------------------------------------------------------------------------------
+			if fd := x.funcDecl(dir, "Route", "TargetConfig"); fd != nil {
+				var fmts []string
+				sortsKeys := false
+				c.walk(fd, func(n ast.Node) bool {
+					if call, ok := n.(*ast.CallExpr); ok {
+						switch x.src(call.Fun) {
+						case "fmt.Sprintf":
+							if s, ok := x.strLit(call.Args[0]); ok {
+								fmts = append(fmts, s)
+							} else {
+								x.fail("TargetConfig: Sprintf format is not a literal: %s", x.src(call))
+							}
+						case "sort.Strings":
+							sortsKeys = true
 						}
-					case "sort.Strings":
-						sortsKeys = true
 					}
-				}
-				return true
-			})
-			x.defStrList("targetConfigFormats", fmts)
-			x.defBool("targetConfigSortsKeys", sortsKeys)
-			x.defStrList("targetConfigGuards", ifConds(fd, all))
-		}
-		if fd := x.funcDecl(dir, "Table", "String"); fd != nil {
-			var joins, sorts []string
-			c.walk(fd, func(n ast.Node) bool {
-				if call, ok := n.(*ast.CallExpr); ok {
-					switch x.src(call.Fun) {
-					case "strings.Join":
-						joins = append(joins, c.shape(call))
-					case "sort.Sort":
-						sorts = append(sorts, c.shape(call))
+					return true
+				})
+				x.defStrList("targetConfigFormats", fmts)
+				x.defBool("targetConfigSortsKeys", sortsKeys)
+				x.defStrList("targetConfigGuards", ifConds(fd, all))
+			}
+			if fd := x.funcDecl(dir, "Table", "String"); fd != nil {
+				var joins, sorts []string
+				c.walk(fd, func(n ast.Node) bool {
+					if call, ok := n.(*ast.CallExpr); ok {
+						switch x.src(call.Fun) {
+						case "strings.Join":
+							joins = append(joins, c.shape(call))
+						case "sort.Sort":
+							sorts = append(sorts, c.shape(call))
+						}
 					}
-				}
-				return true
-			})
-			x.defStrList("tableStringJoins", joins)
-			x.defStrList("tableStringSorts", sorts)
-			x.defSortedStrList("tableStringSkips", c05Uniq(ifConds(fd, func(s string) bool { return strings.Contains(s, ".Weight") })))
-		}
+					return true
+				})
+				x.defStrList("tableStringJoins", joins)
+				x.defStrList("tableStringSorts", sorts)
+				x.defSortedStrList("tableStringSkips", c05Uniq(ifConds(fd, func(s string) bool { return strings.Contains(s, ".Weight") })))
+			}
+
+			// --- round 3: validWeight, option-derived fields, ParseAliases, the admin endpoint ------------------
+			// add / weight: the guards on the command's own fields, in order (prefix, target, weight)
+			fieldGuards := func(fd *ast.FuncDecl) []string {
+				return ifConds(fd, func(s string) bool {
+					return strings.HasPrefix(s, "_.Src ==") || strings.HasPrefix(s, "_.Dst ==") || strings.Contains(s, "(_.Weight)")
+				})
+			}
+			x.defStrList("addFieldGuards", fieldGuards(handlers["route add"]))
+			x.defStrList("weightFieldGuards", fieldGuards(handlers["route weight"]))
+			// the option keys the add handler reads (m["key"] with a literal key), and the redirect range check
+			if fd := handlers["route add"]; fd != nil {
+				keys := map[string]bool{}
+				c.walk(fd, func(n ast.Node) bool {
+					if ix, ok := n.(*ast.IndexExpr); ok {
+						if k, ok := x.strLit(ix.Index); ok {
+							keys[k] = true
+						}
+					}
+					return true
+				})
+				x.defSortedStrList("addOptionKeys", c05Keys(keys))
+				x.defSortedStrList("redirectRangeConds", c05Uniq(ifConds(fd, func(s string) bool { return strings.Contains(s, "RedirectCode") })))
+			}
+			// ParseAliases: the same dispatch as Parse, lines from strings.Split, the option it looks up
+			if fd := x.funcDecl(dir, "", "ParseAliases"); fd != nil {
+				var evs, splits []string
+				keys := map[string]bool{}
+				c.walk(fd, func(n ast.Node) bool {
+					switch v := n.(type) {
+					case *ast.CallExpr:
+						if sel, ok := v.Fun.(*ast.SelectorExpr); ok {
+							switch sel.Sel.Name {
+							case "MatchString":
+								evs = append(evs, "match:"+c.regexSource(sel.X))
+							case "FindStringSubmatch":
+								evs = append(evs, "find:"+c.regexSource(sel.X))
+							}
+						}
+						if fn := x.src(v.Fun); fn == "strings.Split" || fn == "bufio.NewScanner" || fn == "strings.TrimSpace" {
+							splits = append(splits, c.libShape(v))
+						}
+					case *ast.IndexExpr:
+						if k, ok := x.strLit(v.Index); ok {
+							keys[k] = true
+						}
+					}
+					return true
+				})
+				x.defStrList("aliasRegexEvents", evs)
+				x.defSortedStrList("aliasLineCalls", c05Uniq(splits))
+				x.defSortedStrList("aliasOptionKeys", c05Keys(keys))
+			}
+		})
+
+		// admin/api: what the routes handler prints
+		soft(func() {
+			const adir = "admin/api"
+			ca := &c05{x: x, dir: adir}
+			ca.scanPackage()
+			if fd := x.funcDecl(adir, "RoutesHandler", "ServeHTTP"); fd != nil {
+				var calls []string
+				ast.Inspect(fd.Body, func(n ast.Node) bool {
+					if call, ok := n.(*ast.CallExpr); ok {
+						switch x.src(call.Fun) {
+						case "fmt.Fprintln", "fmt.Fprint", "fmt.Fprintf", "sort.Strings", "route.GetTable":
+							calls = append(calls, ca.shape(call))
+						}
+					}
+					return true
+				})
+				x.defStrList("apiRoutesCalls", calls)
+			}
+		})
+		x.defStrList("pinNotes", pinNotes)
 		return nil
 	})
 }
